@@ -10,6 +10,8 @@ def run(facts, tier):
         ("writer prefixes", L.prefix_rule, 20, "the constant-offset prefix of every stream writer has the documented (width, constant) sequence"),
         ("legacy dispatch", L.dispatch_rule, 10, "readers accept exactly the documented serial versions / types"),
         ("documented semantics", L.documented_semantics, 3, "legacy v1 emptiness rule; single-item sketches are ordered"),
+        ("estimation state written", L.estimation_state_written, 8, "compact Theta / Tuple writers: truth table over (estimation mode, empty, single entry) - estimation mode always selects the 3-long preamble and theta is written exactly then"),
+        ("hll set probe", L.hll_set_probe, 2, "slot positions of the SET-mode coupon table (verbatim in updatable images): start and stride follow the documented probing"),
         ("hash constants", L.hash_constants_rule, 8, "literals, shifts and named constants of the hash functions equal the published definitions"),
         ("hash structure", L.hash_digest_rule, 8, "operator/literal/control structure of the published hash functions equals the reviewed reference implementation"),
         ("flag decoding", L.flag_provenance, 50, "booleans decoded from the flags byte depend on exactly the documented bits"),
